@@ -6,6 +6,7 @@ package server
 // library-free replay loop. One generic entry point (vfCheck) per property.
 
 import (
+	"time"
 	"runtime"
 	"encoding/json"
 	"fmt"
@@ -158,6 +159,11 @@ type vfProp[P any] struct {
 	gen     func(t *rapid.T) P
 	run     func(t *testing.T, p P) vfResult
 	journal bool
+	// stallIsViolation: this property speaks of commands and requests that must not wait. A case whose bubble has come
+	// to a standstill with a goroutine of the proxy queued on one of the proxy's locks (the holder waits for time to
+	// pass, and time cannot pass in a bubble while somebody is queued on a mutex) is then reported as a violation
+	// instead of being left to the driver's time limit (which reports "inconclusive").
+	stallIsViolation bool
 	// extra is called once at the end in search mode to add measured numbers to the stats
 	extra func(s *vfStats)
 }
@@ -212,7 +218,17 @@ func vfCheck[P any](t *testing.T, prop vfProp[P]) {
 			Message string   `json:"message"`
 		}{}
 		for i := 0; i < times; i++ {
+			stop := vfStallWatch(prop.stallIsViolation, func(msg string) {
+				out.Runs++
+				out.Failed++
+				out.Sigs = append(out.Sigs, "stalled-on-proxy-lock")
+				out.Message = msg
+				b, _ := json.Marshal(out)
+				fmt.Printf("VF-REPLAY-RESULT %s\n", b)
+				os.Exit(1)
+			})
 			res := safeRun(p)
+			stop()
 			out.Runs++
 			if res.Violation != "" {
 				out.Failed++
@@ -241,7 +257,21 @@ func vfCheck[P any](t *testing.T, prop vfProp[P]) {
 		if prop.journal {
 			vfJournal(prop.id, test, planJSON)
 		}
+		stop := vfStallWatch(prop.stallIsViolation, func(msg string) {
+			res := vfResult{NonTrivial: true}
+			res.failf("stalled-on-proxy-lock", "%s", msg)
+			stats.record(planJSON, res)
+			vfWriteFail(failPath, prop.id, test, planJSON, res)
+			stats.Violations = append(stats.Violations, res.Sig)
+			fmt.Printf("VF-VIOLATION property=%s sig=%s %s\n", prop.id, res.Sig, res.Violation)
+			if prop.extra != nil {
+				prop.extra(stats)
+			}
+			stats.write()
+			os.Exit(1)
+		})
 		res := safeRun(p)
+		stop()
 		stats.record(planJSON, res)
 		if res.Violation != "" {
 			if known[res.Sig] {
@@ -254,6 +284,83 @@ func vfCheck[P any](t *testing.T, prop vfProp[P]) {
 			rt.Fatalf("violation [%s]: %s", res.Sig, res.Violation)
 		}
 	})
+}
+
+// vfStallWatch starts a watchdog (outside any bubble: it sees real time) for the case about to run and returns the
+// function that ends it. After VF_STALL_S seconds (default 40) it looks at all goroutine stacks every two seconds; when
+// two looks in a row show (a) nobody in a bubble running or runnable and (b) the same bubble goroutine(s) queued on
+// a sync.Mutex / sync.RWMutex from within the proxy's own code (not the harness's), the case cannot move any more:
+// onStall is called with the evidence and does not return.
+func vfStallWatch(enabled bool, onStall func(msg string)) (stop func()) {
+	if !enabled {
+		return func() {}
+	}
+	done := make(chan struct{})
+	go func() {
+		limit := time.Duration(vfEnvInt("VF_STALL_S", 40)) * time.Second
+		select {
+		case <-done:
+			return
+		case <-time.After(limit):
+		}
+		prev := ""
+		for {
+			key, evidence := vfStalledOnProxyLock()
+			if key != "" && key == prev {
+				onStall("the case has come to a standstill: a goroutine of the proxy is queued on one of the proxy's locks, nothing in the bubble is running, and the lock's holder waits for time to pass (for " + limit.String() + " of real time and two looks two seconds apart):\n" + evidence)
+				return
+			}
+			prev = key
+			select {
+			case <-done:
+				return
+			case <-time.After(2 * time.Second):
+			}
+		}
+	}()
+	return func() { close(done) }
+}
+
+func vfStalledOnProxyLock() (key, evidence string) {
+	buf := make([]byte, 8<<20)
+	buf = buf[:runtime.Stack(buf, true)]
+	var queued []string
+	for _, g := range strings.Split(string(buf), "\n\n") {
+		head, _, _ := strings.Cut(g, "\n")
+		if !strings.Contains(head, "synctest bubble") {
+			continue
+		}
+		if strings.Contains(head, "[running") || strings.Contains(head, "[runnable") {
+			return "", ""
+		}
+		if !(strings.Contains(head, "sync.Mutex.Lock") || strings.Contains(head, "sync.RWMutex.RLock") || strings.Contains(head, "sync.RWMutex.Lock")) {
+			continue
+		}
+		// the innermost frame that is not sync / runtime decides whose lock it is
+		lines := strings.Split(g, "\n")
+		for i := 1; i+1 < len(lines); i += 2 {
+			fn := lines[i]
+			if strings.HasPrefix(fn, "sync.") || strings.HasPrefix(fn, "internal/") || strings.HasPrefix(fn, "runtime.") {
+				continue
+			}
+			file := strings.TrimSpace(lines[i+1])
+			if strings.Contains(fn, "kamal-proxy/internal/server.") && !strings.Contains(file, "zz_vf_") && !strings.Contains(file, "/vf_") {
+				n := min(len(lines), 14)
+				queued = append(queued, strings.Join(lines[:n], "\n"))
+			}
+			break
+		}
+	}
+	if len(queued) == 0 {
+		return "", ""
+	}
+	sort.Strings(queued)
+	var ids []string
+	for _, q := range queued {
+		h, _, _ := strings.Cut(q, "\n")
+		ids = append(ids, h)
+	}
+	return strings.Join(ids, "|"), strings.Join(queued, "\n\n")
 }
 
 func vfEnvInt(name string, def int) int {
